@@ -700,3 +700,133 @@ def pair_order(ctx, L, rule="R-PAIR-ORDER"):
                     ctx.holds(rule, inst)
     if m == 0:
         ctx.unknown(rule, "%s: no receive-path update of state and deadline found" % L.cls)
+
+
+def _self_call_graph(cls):
+    """method name -> names of the same-class methods it calls / takes as bound-method values (private names unmangled)"""
+    g = {}
+    for mn, m in cls.methods.items():
+        out = set()
+        for n in ast.walk(m.node):
+            if isinstance(n, ast.Attribute) and isinstance(n.value, ast.Name) and n.value.id == "self" and isinstance(n.ctx, ast.Load) \
+                    and n.attr in cls.methods:
+                out.add(n.attr)
+        g[mn] = out
+    return g
+
+
+def _reach(g, start):
+    seen, todo = set(), [start]
+    while todo:
+        x = todo.pop()
+        if x in seen:
+            continue
+        seen.add(x)
+        todo.extend(g.get(x, ()))
+    return seen
+
+
+def scratch_own(ctx, L, rule="R-SCRATCH-OWN"):
+    """methods that run both in the job thread and in the receive / application thread (the frame builders, above all) work on containers they
+    create themselves.  A container kept in the object and rewritten element by element on each call is shared between the two threads:
+    a pre-emption inside one call lets the other call overwrite the half-built content (a frame goes out with the other frame's bytes)."""
+    cls = L.c
+    g = _self_call_graph(cls)
+    job = _reach(g, L.job.name)
+    rcv = _reach(g, "notify") | _reach(g, "send_pgn")
+    both = sorted((job & rcv) - {L.job.name, "notify", "send_pgn"})
+    TABLES = {"_rcv_buffer", "_snd_buffer", "_multi_pg_snd_buffer", "_cas"}
+    MUT = ("append", "extend", "insert", "clear", "pop", "remove", "update", "sort", "reverse")
+    n = 0
+    for mn in both:
+        m = cls.methods[mn]
+        alias = {}
+        for x in ast.walk(m.node):
+            if isinstance(x, ast.Assign) and isinstance(x.value, ast.Attribute) and isinstance(x.value.value, ast.Name) and x.value.value.id == "self":
+                for t in x.targets:
+                    if isinstance(t, ast.Name):
+                        alias[t.id] = x.value.attr
+        hits = []
+        for x in ast.walk(m.node):
+            base = None
+            if isinstance(x, ast.Subscript) and isinstance(x.ctx, (ast.Store, ast.Del)):
+                base = x.value
+            elif isinstance(x, ast.Call) and isinstance(x.func, ast.Attribute) and x.func.attr in MUT:
+                base = x.func.value
+            if base is None:
+                continue
+            fld = None
+            if isinstance(base, ast.Name) and base.id in alias:
+                fld = alias[base.id]
+            elif isinstance(base, ast.Attribute) and isinstance(base.value, ast.Name) and base.value.id == "self":
+                fld = base.attr
+            if fld is not None and fld not in TABLES and not fld.endswith("_session_list"):
+                hits.append((fld, x))
+        n += 1
+        inst = "%s %s (job thread and receive path): builds its frame in containers of its own" % (L.tag, mn.lstrip("_"))
+        if hits:
+            ctx.violated(rule, m, inst, "the method rewrites self.%s in place on every call and runs in the job thread as well as in the receive / "
+                         "application thread: a thread switch inside one call lets the other overwrite the half-built content, the frame that "
+                         "goes out is a blend of two frames" % hits[0][0], hits[0][1])
+        else:
+            ctx.holds(rule, inst)
+    if n == 0:
+        ctx.unknown(rule, "%s: no method shared between the job thread and the receive path found" % L.cls)
+
+
+def state_own(ctx, L, rule="R-STATE-OWN"):
+    """per-stack bookkeeping (session tables, session-number pools, CA list) that is modified in place belongs to ONE stack object: the
+    constructor creates it.  Bound to a class attribute or a module-level object instead, every stack in the process modifies the same
+    container - one stack's sessions use up the other's capacity, and what a stopped stack held is never returned."""
+    cls = L.c
+    init = cls.methods.get("__init__")
+    if init is None:
+        raise AnalysisError("anchor vanished: %s.__init__" % L.cls)
+    MUT = ("append", "extend", "insert", "clear", "pop", "remove", "update", "sort", "reverse", "add", "discard", "setdefault", "popitem")
+    mutated = set()
+    for m in cls.methods.values():
+        al = {}
+        for x in ast.walk(m.node):
+            if isinstance(x, ast.Assign) and isinstance(x.value, ast.Attribute) and isinstance(x.value.value, ast.Name) and x.value.value.id == "self":
+                for t in x.targets:
+                    if isinstance(t, ast.Name):
+                        al[t.id] = x.value.attr
+        for x in ast.walk(m.node):
+            base = None
+            if isinstance(x, ast.Subscript) and isinstance(x.ctx, (ast.Store, ast.Del)):
+                base = x.value
+            elif isinstance(x, ast.Call) and isinstance(x.func, ast.Attribute) and x.func.attr in MUT:
+                base = x.func.value
+            while isinstance(base, ast.Subscript):
+                base = base.value
+            if isinstance(base, ast.Attribute) and isinstance(base.value, ast.Name) and base.value.id == "self":
+                mutated.add(base.attr)
+            elif isinstance(base, ast.Name) and base.id in al:
+                mutated.add(al[base.id])
+    class_level = {t.id for st in cls.node.body if isinstance(st, ast.Assign) for t in st.targets if isinstance(t, ast.Name)}
+    mod_level = {t.id for st in ctx.prog.modules[cls.mod].body if isinstance(st, ast.Assign) for t in st.targets if isinstance(t, ast.Name)}
+    n = 0
+    for x in ast.walk(init.node):
+        if not (isinstance(x, ast.Assign) and len(x.targets) == 1 and isinstance(x.targets[0], ast.Attribute) and
+                isinstance(x.targets[0].value, ast.Name) and x.targets[0].value.id == "self" and x.targets[0].attr in mutated):
+            continue
+        fld = x.targets[0].attr
+        v = x.value
+        inst = "%s self.%s is created by the constructor" % (L.tag, fld.lstrip("_"))
+        shared = None
+        if isinstance(v, ast.Attribute) and isinstance(v.value, ast.Name) and v.value.id in ("self", "cls", L.cls, "type") and v.attr in class_level:
+            shared = "the class attribute %s.%s" % (L.cls, v.attr)
+        elif isinstance(v, ast.Attribute) and isinstance(v.value, ast.Call) and isinstance(v.value.func, ast.Name) and v.value.func.id == "type" \
+                and v.attr in class_level:
+            shared = "the class attribute %s.%s" % (L.cls, v.attr)
+        elif isinstance(v, ast.Name) and v.id in mod_level:
+            shared = "the module-level object %s" % v.id
+        n += 1
+        if shared:
+            ctx.violated(rule, init, inst, "the constructor binds self.%s to %s, which the methods then modify in place: all %s objects of the "
+                         "process share it (sessions of one stack occupy the other's session numbers / table entries; a stack stopped with open "
+                         "sessions leaves them taken for every stack created later)" % (fld, shared, L.cls), x)
+        else:
+            ctx.holds(rule, inst)
+    if n < 3:
+        ctx.unknown(rule, "%s: constructor assignments of in-place modified fields not found (%d)" % (L.cls, n))
